@@ -151,6 +151,22 @@ def _ops():
         from mpyc import statistics as st
         return st.covariance(A, B)
 
+    @op('to_bits-element', ('C30',))
+    def _(mpc, T, A, B, c):
+        return mpc.to_bits(A[0]) + mpc.to_bits(A[1])      # operands (fixed point: flagged integral) must stay what they were
+
+    @op('lsb-element', ('C30',), kinds=('int',))
+    def _(mpc, T, A, B, c):
+        return [mpc.lsb(A[0]), mpc.lsb(A[3])]
+
+    @op('unit_vector-element', ('C30',), kinds=('int',))
+    def _(mpc, T, A, B, c):
+        return mpc.unit_vector(A[3], 4) + mpc.unit_vector(A[3], 4)
+
+    @op('gcp2-elements', ('C30',), kinds=('int',))
+    def _(mpc, T, A, B, c):
+        return [mpc.gcp2(A[5], A[4]), mpc.gcp2(A[5], A[5])]      # (trailing_zeros itself is only specified up to the lowest 1)
+
     @op('lsb-of-sum', ('C30',), kinds=('int',))
     def _(mpc, T, A, B, c):
         return mpc.lsb(mpc.sum(A))
